@@ -247,6 +247,12 @@ func (fi *FileInfo) locateObjects() error {
 	}
 	fi.PDFStart = pos
 	fi.HeaderVersion = m[1]
+	// The header pattern includes the byte behind the version number.  If
+	// this byte is an end-of-line, hand it back: it may be the end-of-line in
+	// front of the first marker.
+	if last := m[0][len(m[0])-1]; last == '\r' || last == '\n' {
+		s.pos--
+	}
 
 	section := &FileSection{}
 
@@ -540,8 +546,12 @@ var (
 	startRegexp = regexp.MustCompile(`%PDF-([12]\.[0-9])[^0-9]`)
 
 	whiteSpacePat = `[\000\011\014 ]+`
-	eolPat        = `(?:\r\n|\r|\n|^)`
-	objectPat     = `([0-9]+)` + whiteSpacePat + `([0-9]+)` + whiteSpacePat + `obj`
-	markerPat     = eolPat + `(` + objectPat + `|xref|trailer|startxref|%%EOF)\b`
-	markerRegexp  = regexp.MustCompile(markerPat)
+	// Markers must follow an end-of-line.  (There is no need to match the
+	// start of the input, since the scan starts at the end of the header
+	// line; `^` would also match wherever scanner.Find resumes its search
+	// inside a line.)
+	eolPat       = `(?:\r\n|\r|\n)`
+	objectPat    = `([0-9]+)` + whiteSpacePat + `([0-9]+)` + whiteSpacePat + `obj`
+	markerPat    = eolPat + `(` + objectPat + `|xref|trailer|startxref|%%EOF)\b`
+	markerRegexp = regexp.MustCompile(markerPat)
 )
